@@ -1079,3 +1079,18 @@ Proof.
   unfold sound14; intros F H. apply andb_prop in H; destruct H as [_ H].
   destruct (c_abor F); try discriminate; intro X; discriminate X.
 Qed.
+
+(* the candidate fix for F5 in the model: when _start_passive_server returns the port on cancellation
+   (c_giveback), a session that ends while the listener start-up is suspended BEFORE the bind releases
+   everything, for any such configuration F *)
+Theorem startup_hole_closed_by_giveback : forall F st,
+  sound12 F = true -> c_giveback F = true -> state_ok F st = true -> lst (ss st) = LTaking ->
+  hole_free F {| ss := set_lst (ss st) LNone; ws := ws st |} = true ->
+  ledger_empty (ledger F (unwind F (end_session F st))) = true.
+Proof.
+  intros F st Hs Hg Hk Hl Hh.
+  set (st' := {| ss := set_lst (ss st) LNone; ws := ws st |}).
+  assert (E : end_session F st = end_session F st').
+  { unfold end_session, giveback_pre. rewrite Hg, Hl. subst st'; simpl. reflexivity. }
+  rewrite E. apply end_releases_all; [exact Hs | exact Hk | exact Hh].
+Qed.
